@@ -9,6 +9,7 @@ pub mod c11;
 pub mod c12;
 pub mod c13;
 pub mod c16;
+pub mod c17;
 pub mod c19;
 
 pub fn run(ctx: &Ctx) -> i32 {
@@ -22,6 +23,7 @@ pub fn run(ctx: &Ctx) -> i32 {
         "C12" => c12::run(ctx),
         "C13" => c13::run(ctx),
         "C16" => c16::run(ctx),
+        "C17" => c17::run(ctx),
         "C19" => c19::run(ctx),
         _ => {
             eprintln!("machinery error: no check registered for {}", ctx.prop);
@@ -52,6 +54,7 @@ pub fn replay(ctx: &Ctx, path: &str) -> i32 {
         "C12" => c12::replay(ctx, &body),
         "C13" => c13::replay(ctx, &body),
         "C16" => c16::replay(ctx, &body),
+        "C17" => c17::replay(ctx, &body),
         "C19" => c19::replay(ctx, &body),
         _ => {
             eprintln!("machinery error: no replay registered for {}", ctx.prop);
